@@ -39,6 +39,32 @@ def squeeze(s):
     return re.sub(r"[ \t\n;]", "", s)
 
 
+def typed_signatures(fx, pkg_names):
+    """per mock of a generated file: its type parameters, methods and signatures with every package
+    qualifier replaced by the import path the file's own import block binds it to -- the mock's
+    shape 'as types', independent of how imports and parameters are spelled (C20)"""
+    table = {}
+    for i in (fx or {}).get("imports") or []:
+        q = i["name"] or pkg_names.get(i["type"]) or i["type"].rsplit("/", 1)[-1]
+        table[q] = i["type"]
+
+    def norm(s):
+        return squeeze(re.sub(r"\b([A-Za-z_]\w*)\.([A-Za-z_]\w*)",
+                              lambda m: "<%s>.%s" % (table.get(m.group(1), "?" + m.group(1)), m.group(2)), s))
+    out = {}
+    for m in (fx or {}).get("mocks") or []:
+        sig = ["tp %s %s" % (t["name"], norm(t["type"])) for t in m.get("tparams") or []]
+        funcs = set(m.get("func_order") or [])
+        for mm in m.get("methods") or []:
+            if mm["name"] + "Func" not in funcs:
+                continue      # accessors and resets: their result types spell out parameter names
+            sig.append("m %s(%s)(%s)" % (mm["name"], ",".join(norm(q["type"]) for q in mm.get("params") or []),
+                                         ",".join(norm(q["type"]) for q in mm.get("results") or [])))
+        sig.append("fields " + ",".join(m.get("func_order") or []))
+        out.setdefault(m["name"], []).append(sig)
+    return out
+
+
 def projection(fx):
     """the structure of a generated file, from `vh facts` (must mirror L2Check.proj_data)"""
     if not fx or fx.get("parse_error"):
